@@ -7,13 +7,20 @@
      consumed when an exception is raised, and which exception wins);
    - every math.* call and every ** goes through the [num] record, so in the
      float instance it is an oracle-table lookup;
-   - [pv] ("pinned variant") selects the behaviour of the pinned tree at the
-     two places for which a repair is proposed (proposed_fixes/C14-*.patch):
+   - [pv] ("pinned variant") selects the behaviour of the pinned tree 13808df
+     at the five places that were repaired (proposed_fixes/C14-*.patch):
        pv = true : polar method accepts radius 0 (then log 0 raises);
                    truncated normal raises outside a 1e-6*|bound| tolerance;
-       pv = false: radius 0 is rejected like radius >= 1; plain clamp.
-     All other defects of the pinned tree (log of a uniform that is 0.0,
-     geometric p in {0,1}, NaN parameters accepted) are modelled as they are.
+                   range checks "x <= 0" / "hi <= lo" / "mode < lo" ... (a NaN passes);
+                   geometric / negative binomial accept 0 <= p <= 1;
+                   uniforms that go into a logarithm are used as delivered;
+       pv = false: radius 0 is rejected like radius >= 1; plain clamp;
+                   range checks "not x > 0" ... (a NaN fails);
+                   0 < p < 1;
+                   Distribution._next_open_float skips a uniform of exactly 0.0.
+     What is NOT repaired is modelled as it is in both variants: an inner gamma
+     draw that underflows to 0.0 (division by zero in Beta / Pearson), a product
+     of uniforms that underflows, results beyond the double range.
 
    Executable definitions only (no proofs). *)
 From Coq Require Import ZArith List Bool.
@@ -161,18 +168,31 @@ Definition p_eq (a b : param F) : bool :=
   | PI x, PI y => (x =? y)%Z
   | _, _ => eqb N (p_float a) (p_float b)
   end.
+Definition p_gt0 (p : param F) : bool :=          (* p > 0 *)
+  match p with PF x => zero <. x | PI z => (0 <? z)%Z | PBad => false end.
 Definition in01 (x : F) : bool := (zero <=. x) && (x <=. one).   (* 0 <= x <= 1 *)
+Definition in01o (x : F) : bool := (zero <. x) && (x <. one).    (* 0 < x < 1 *)
+
+(* the range checks, pinned and repaired spelling *)
+Definition pos_ok (pv : bool) (p : param F) : bool :=      (* pinned: not (p <= 0); repaired: p > 0 *)
+  if pv then negb (p_le0 p) else p_gt0 p.
+Definition lt_ok (pv : bool) (a b : param F) : bool :=     (* pinned: not (b <= a); repaired: a < b *)
+  if pv then negb (p_le b a) else p_lt a b.
+Definition le_ok (pv : bool) (a b : param F) : bool :=     (* pinned: not (b < a); repaired: a <= b *)
+  if pv then negb (p_lt b a) else p_le a b.
+Definition prob_ok (pv : bool) (x : F) : bool :=           (* geometric / negative binomial *)
+  if pv then in01 x else in01o x.
 
 Definition check (b : bool) (e : exn) : res unit := if b then Val tt else Err (Raise e).
 Notation "'do' r ;; f" := (rbind r (fun _ => f)) (at level 61, r at next level, right associativity).
 Notation "x <-- r ;; f" := (rbind r (fun x => f)) (at level 61, r at next level, right associativity).
 
 (* DistGamma.__init__ after the stream check *)
-Definition gamma_checks (shape scale : param F) : res (F * F) :=
+Definition gamma_checks (pv : bool) (shape scale : param F) : res (F * F) :=
   do check (is_num shape) EType ;;
   do check (is_num scale) EType ;;
-  do check (negb (p_le0 shape)) EValue ;;
-  do check (negb (p_le0 scale)) EValue ;;
+  do check (pos_ok pv shape) EValue ;;
+  do check (pos_ok pv scale) EValue ;;
   Val (p_float shape, p_float scale).
 
 (* 0.5 + 0.5 * math.erf((x - mu) / (math.sqrt(2.0) * sigma)) *)
@@ -182,7 +202,7 @@ Definition cum_prob_nt (mu sigma x : F) : res F :=
   e <-- nerf N q ;;
   Val (half +. half *. e).
 
-Definition ctor (c : cls) (sok : bool) (ps : list (param F)) : res dist :=
+Definition ctor (pv : bool) (c : cls) (sok : bool) (ps : list (param F)) : res dist :=
   let stream := check sok EType in
   match c, ps with
   | CBernoulli, [p] =>
@@ -193,11 +213,11 @@ Definition ctor (c : cls) (sok : bool) (ps : list (param F)) : res dist :=
   | CBeta, [a1; a2] =>
       do check (is_num a1) EType ;;
       do check (is_num a2) EType ;;
-      do check (negb (p_le0 a1)) EValue ;;
-      do check (negb (p_le0 a2)) EValue ;;
+      do check (pos_ok pv a1) EValue ;;
+      do check (pos_ok pv a2) EValue ;;
       do stream ;;
-      g1 <-- gamma_checks (PF (p_float a1)) (PF one) ;;
-      g2 <-- gamma_checks (PF (p_float a2)) (PF one) ;;
+      g1 <-- gamma_checks pv (PF (p_float a1)) (PF one) ;;
+      g2 <-- gamma_checks pv (PF (p_float a2)) (PF one) ;;
       Val (DBeta (p_float a1) (p_float a2) g1 g2)
   | CBinomial, [n; p] =>
       do stream ;;
@@ -219,33 +239,33 @@ Definition ctor (c : cls) (sok : bool) (ps : list (param F)) : res dist :=
   | CErlang, [scale; k] =>
       do check (is_num scale) EType ;;
       do check (is_int k) EType ;;
-      do check (negb (p_le0 scale)) EValue ;;
+      do check (pos_ok pv scale) EValue ;;
       do check (negb (p_le0 k)) EValue ;;
       lam <-- one /. p_float scale ;;
       do stream ;;
       if (p_int k <? 10)%Z then Val (DErlang (p_float scale) (p_int k) lam None)
-      else g <-- gamma_checks k (PF (p_float scale)) ;;
+      else g <-- gamma_checks pv k (PF (p_float scale)) ;;
            Val (DErlang (p_float scale) (p_int k) lam (Some g))
   | CExponential, [mean] =>
       do stream ;;
       do check (is_num mean) EType ;;
-      do check (negb (p_le0 mean)) EValue ;;
+      do check (pos_ok pv mean) EValue ;;
       Val (DExponential (p_float mean))
   | CGamma, [shape; scale] =>
       do stream ;;
-      g <-- gamma_checks shape scale ;;
+      g <-- gamma_checks pv shape scale ;;
       Val (DGamma (fst g) (snd g))
   | CGeometric, [p] =>
       do stream ;;
       do check (is_float p) EType ;;
-      do check (in01 (p_float p)) EValue ;;
+      do check (prob_ok pv (p_float p)) EValue ;;
       lnp <-- nlog N (one -. p_float p) ;;
       Val (DGeometric (p_float p) lnp)
   | CNegBinomial, [s; p] =>
       do stream ;;
       do check (is_float p) EType ;;
       do check (is_int s) EType ;;
-      do check (in01 (p_float p)) EValue ;;
+      do check (prob_ok pv (p_float p)) EValue ;;
       do check (negb (p_le0 s)) EValue ;;
       lnp <-- nlog N (one -. p_float p) ;;
       Val (DNegBinomial (p_int s) (p_float p) lnp)
@@ -253,13 +273,13 @@ Definition ctor (c : cls) (sok : bool) (ps : list (param F)) : res dist :=
       do stream ;;
       do check (is_num mu) EType ;;
       do check (is_num sigma) EType ;;
-      do check (negb (p_le0 sigma)) EValue ;;
+      do check (pos_ok pv sigma) EValue ;;
       Val (DNormal (p_float mu) (p_float sigma))
   | CLogNormal, [mu; sigma] =>
       do stream ;;
       do check (is_num mu) EType ;;
       do check (is_num sigma) EType ;;
-      do check (negb (p_le0 sigma)) EValue ;;
+      do check (pos_ok pv sigma) EValue ;;
       let c2 := two *. p_float sigma *. p_float sigma in
       r <-- nsqrt N (cPi N *. c2) ;;
       Val (DLogNormal (p_float mu) (p_float sigma) c2 r)
@@ -269,39 +289,39 @@ Definition ctor (c : cls) (sok : bool) (ps : list (param F)) : res dist :=
       do check (is_num sigma) EType ;;
       do check (is_num lo) EType ;;
       do check (is_num hi) EType ;;
-      do check (negb (p_le0 sigma)) EValue ;;
+      do check (pos_ok pv sigma) EValue ;;
       do check (negb (p_le hi lo)) EValue ;;
       let m := p_float mu in let s := p_float sigma in
       cplo <-- cum_prob_nt m s (p_float lo) ;;
       cphi <-- cum_prob_nt m s (p_float hi) ;;
       let diff := cphi -. cplo in
-      do check (negb (diff <. c1em6)) EValue ;;
+      do check (if pv then negb (diff <. c1em6) else c1em6 <=. diff) EValue ;;
       fac <-- one /. diff ;;
       Val (DNormalTrunc m s (p_float lo) (p_float hi) cplo diff fac)
   | CPearson5, [alpha; beta] =>
       do check (is_num alpha) EType ;;
       do check (is_num beta) EType ;;
-      do check (negb (p_le0 alpha)) EValue ;;
-      do check (negb (p_le0 beta)) EValue ;;
+      do check (pos_ok pv alpha) EValue ;;
+      do check (pos_ok pv beta) EValue ;;
       do stream ;;
       ib <-- one /. p_float beta ;;
-      g <-- gamma_checks (PF (p_float alpha)) (PF ib) ;;
+      g <-- gamma_checks pv (PF (p_float alpha)) (PF ib) ;;
       Val (DPearson5 (p_float alpha) (p_float beta) g)
   | CPearson6, [a1; a2; beta] =>
       do check (is_num a1) EType ;;
       do check (is_num a2) EType ;;
       do check (is_num beta) EType ;;
-      do check (negb (p_le0 a1)) EValue ;;
-      do check (negb (p_le0 a2)) EValue ;;
-      do check (negb (p_le0 beta)) EValue ;;
+      do check (pos_ok pv a1) EValue ;;
+      do check (pos_ok pv a2) EValue ;;
+      do check (pos_ok pv beta) EValue ;;
       do stream ;;
-      g1 <-- gamma_checks (PF (p_float a1)) (PF (p_float beta)) ;;
-      g2 <-- gamma_checks (PF (p_float a2)) (PF (p_float beta)) ;;
+      g1 <-- gamma_checks pv (PF (p_float a1)) (PF (p_float beta)) ;;
+      g2 <-- gamma_checks pv (PF (p_float a2)) (PF (p_float beta)) ;;
       Val (DPearson6 (p_float a1) (p_float a2) (p_float beta) g1 g2)
   | CPoisson, [rate] =>
       do stream ;;
       do check (is_num rate) EType ;;
-      do check (negb (p_le0 rate)) EValue ;;
+      do check (pos_ok pv rate) EValue ;;
       e <-- nexp N (-. p_float rate) ;;
       Val (DPoisson (p_float rate) e)
   | CTriangular, [lo; mode; hi] =>
@@ -309,28 +329,38 @@ Definition ctor (c : cls) (sok : bool) (ps : list (param F)) : res dist :=
       do check (is_num lo) EType ;;
       do check (is_num mode) EType ;;
       do check (is_num hi) EType ;;
-      do check (negb (p_lt mode lo)) EValue ;;
-      do check (negb (p_lt hi mode)) EValue ;;
+      do check (le_ok pv lo mode) EValue ;;
+      do check (le_ok pv mode hi) EValue ;;
       do check (negb (p_eq lo hi)) EValue ;;
       Val (DTriangular (p_float lo) (p_float mode) (p_float hi))
   | CUniform, [lo; hi] =>
       do stream ;;
       do check (is_num lo) EType ;;
       do check (is_num hi) EType ;;
-      do check (negb (p_le hi lo)) EValue ;;
+      do check (lt_ok pv lo hi) EValue ;;
       Val (DUniform (p_float lo) (p_float hi))
   | CWeibull, [alpha; beta] =>
       do stream ;;
       do check (is_num alpha) EType ;;
       do check (is_num beta) EType ;;
-      do check (negb (p_le0 alpha)) EValue ;;
-      do check (negb (p_le0 beta)) EValue ;;
+      do check (pos_ok pv alpha) EValue ;;
+      do check (pos_ok pv beta) EValue ;;
       Val (DWeibull (p_float alpha) (p_float beta))
   | _, _ => Err Unmodelled
   end.
 
 (* ------------------------------------------------------------------ *)
 (* draw()                                                               *)
+
+(* Distribution._next_open_float (repaired tree): a uniform of exactly 0.0 is
+   skipped; structurally recursive on the recorded stream output.  The pinned
+   tree reads the uniform as delivered. *)
+Fixpoint next_pos (us : list F) : res F * list F :=
+  match us with
+  | [] => (Err NoUniform, [])
+  | u :: r => if eqb N u zero then next_pos r else (Val u, r)
+  end.
+Definition nextp (pv : bool) : M F F := if pv then next else next_pos.
 
 (* DistGamma.draw, shape < 1: Law & Kelton acceptance-rejection, at most
    [cnt] tries (the code's own bound is 1000), then "return 1.0". *)
@@ -356,12 +386,12 @@ Fixpoint gamma_lt1 (cnt : nat) (shape scale b : F) : M F F :=
   end.
 
 (* DistGamma.draw, shape > 1 *)
-Fixpoint gamma_gt1 (cnt : nat) (shape scale a b q d : F) : M F F :=
+Fixpoint gamma_gt1 (pv : bool) (cnt : nat) (shape scale a b q d : F) : M F F :=
   match cnt with
   | O => ret one
   | S c =>
-      u1 <- next ;;
-      u2 <- next ;;
+      u1 <- nextp pv ;;
+      u2 <- nextp pv ;;
       r <- lift (u1 /. (one -. u1)) ;;
       l <- lift (nlog N r) ;;
       let v := a *. l in
@@ -372,10 +402,10 @@ Fixpoint gamma_gt1 (cnt : nat) (shape scale a b q d : F) : M F F :=
       if zero <=. (w +. d -. c4_5 *. z) then ret (scale *. y)
       else
         lz <- lift (nlog N z) ;;
-        if lz <. w then ret (scale *. y) else gamma_gt1 c shape scale a b q d
+        if lz <. w then ret (scale *. y) else gamma_gt1 pv c shape scale a b q d
   end.
 
-Definition draw_gamma (shape scale : F) : M F F :=
+Definition draw_gamma (pv : bool) (shape scale : F) : M F F :=
   if shape <. one then
     b <- lift ((cE N +. shape) /. cE N) ;;
     gamma_lt1 1000 shape scale b
@@ -388,16 +418,16 @@ Definition draw_gamma (shape scale : F) : M F F :=
     let q := shape +. ia in
     lt <- lift (nlog N c4_5) ;;
     let d := one +. lt in
-    gamma_gt1 1000 shape scale a b q d
+    gamma_gt1 pv 1000 shape scale a b q d
   else
-    u <- next ;;
+    u <- nextp pv ;;
     l <- lift (nlog N u) ;;
     ret ((-. scale) *. l).
 
-Fixpoint prod_uniforms (k : nat) (acc : F) : M F F :=
+Fixpoint prod_uniforms (pv : bool) (k : nat) (acc : F) : M F F :=
   match k with
   | O => ret acc
-  | S k' => u <- next ;; prod_uniforms k' (acc *. u)
+  | S k' => u <- nextp pv ;; prod_uniforms pv k' (acc *. u)
   end.
 
 Fixpoint count_successes (n : nat) (p : F) (x : Z) : M F Z :=
@@ -406,16 +436,16 @@ Fixpoint count_successes (n : nat) (p : F) (x : Z) : M F Z :=
   | S n' => u <- next ;; count_successes n' p (if u <=. p then (x + 1)%Z else x)
   end.
 
-Definition geometric_once (lnp : F) : M F Z :=
-  u <- next ;;
+Definition geometric_once (pv : bool) (lnp : F) : M F Z :=
+  u <- nextp pv ;;
   l <- lift (nlog N u) ;;
   q <- lift (l /. lnp) ;;
   lift (nfloor N q).
 
-Fixpoint sum_geometrics (s : nat) (lnp : F) (x : Z) : M F Z :=
+Fixpoint sum_geometrics (pv : bool) (s : nat) (lnp : F) (x : Z) : M F Z :=
   match s with
   | O => ret x
-  | S s' => g <- geometric_once lnp ;; sum_geometrics s' lnp (x + g)%Z
+  | S s' => g <- geometric_once pv lnp ;; sum_geometrics pv s' lnp (x + g)%Z
   end.
 
 (* the rejection loop of DistNormal._next_gaussian; consumes two uniforms per
@@ -498,40 +528,40 @@ Definition draw (pv : bool) (d : dist) (cache : option F) : M F (value F * optio
   match d with
   | DBernoulli p => iv (u <- next ;; ret (if u <=. p then 1%Z else 0%Z)) cache
   | DBeta _ _ g1 g2 =>
-      fv (y1 <- draw_gamma (fst g1) (snd g1) ;;
-          y2 <- draw_gamma (fst g2) (snd g2) ;;
+      fv (y1 <- draw_gamma pv (fst g1) (snd g1) ;;
+          y2 <- draw_gamma pv (fst g2) (snd g2) ;;
           lift (y1 /. (y1 +. y2))) cache
   | DBinomial n p => iv (count_successes (Z.to_nat n) p 0%Z) cache
   | DConstant c => _u <- next ;; ret (c, cache)
   | DDiscreteUniform lo hi => iv (next_int lo hi) cache
   | DErlang scale k _ g =>
       match g with
-      | None => fv (p <- prod_uniforms (Z.to_nat k) one ;;
+      | None => fv (p <- prod_uniforms pv (Z.to_nat k) one ;;
                     l <- lift (nlog N p) ;;
                     ret ((-. scale) *. l)) cache
-      | Some gp => fv (draw_gamma (fst gp) (snd gp)) cache
+      | Some gp => fv (draw_gamma pv (fst gp) (snd gp)) cache
       end
-  | DExponential mean => fv (u <- next ;; l <- lift (nlog N u) ;; ret ((-. mean) *. l)) cache
-  | DGamma shape scale => fv (draw_gamma shape scale) cache
-  | DGeometric _ lnp => iv (geometric_once lnp) cache
+  | DExponential mean => fv (u <- nextp pv ;; l <- lift (nlog N u) ;; ret ((-. mean) *. l)) cache
+  | DGamma shape scale => fv (draw_gamma pv shape scale) cache
+  | DGeometric _ lnp => iv (geometric_once pv lnp) cache
   | DLogNormal mu sigma _ _ =>
       t <- draw_normal pv mu sigma cache ;;
       e <- lift (nexp N (fst t)) ;;
       ret (VF e, snd t)
-  | DNegBinomial s _ lnp => iv (sum_geometrics (Z.to_nat s) lnp 0%Z) cache
+  | DNegBinomial s _ lnp => iv (sum_geometrics pv (Z.to_nat s) lnp 0%Z) cache
   | DNormal mu sigma => t <- draw_normal pv mu sigma cache ;; ret (VF (fst t), snd t)
   | DNormalTrunc mu sigma lo hi cplo cpdiff _ =>
       fv (draw_normaltrunc pv mu sigma lo hi cplo cpdiff) cache
-  | DPearson5 _ _ g => fv (y <- draw_gamma (fst g) (snd g) ;; lift (one /. y)) cache
+  | DPearson5 _ _ g => fv (y <- draw_gamma pv (fst g) (snd g) ;; lift (one /. y)) cache
   | DPearson6 _ _ beta g1 g2 =>
-      fv (y1 <- draw_gamma (fst g1) (snd g1) ;;
-          y2 <- draw_gamma (fst g2) (snd g2) ;;
+      fv (y1 <- draw_gamma pv (fst g1) (snd g1) ;;
+          y2 <- draw_gamma pv (fst g2) (snd g2) ;;
           lift ((beta *. y1) /. y2)) cache
   | DPoisson _ expl => iv (poisson_loop expl one (-1)%Z) cache
   | DTriangular lo mode hi => fv (draw_triangular lo mode hi) cache
   | DUniform lo hi => fv (u <- next ;; ret (lo +. (hi -. lo) *. u)) cache
   | DWeibull alpha beta =>
-      fv (u <- next ;;
+      fv (u <- nextp pv ;;
           l <- lift (nlog N u) ;;
           ia <- lift (one /. alpha) ;;
           pw <- lift (npow N (-. l) ia) ;;
@@ -571,7 +601,7 @@ Definition step (pv : bool) (w : world) (o : op) : world * mout :=
   let '(ins, st) := w in
   match o with
   | ONew k c sok sid ps =>
-      match ctor c sok ps with
+      match ctor pv c sok ps with
       | Val d => ((wupd ins k (Some (mkInst d sid None)), st), MAccept)
       | Err e => ((wupd ins k None, st), MFail e 0)
       end
